@@ -335,7 +335,9 @@ func evalC12Root(c *Ctx, cs *Case, lm *mon.LeakMonitor) {
 		}})
 		es = append(es, ent{"VerifyFromRoot", massive, func(ctx context.Context, t string) Outcome {
 			g := BuildRoot(root)
-			return Guard(func() error { return gtree.VerifyFromRoot(g, mo(ctx, gtree.WithTargetDir(t), gtree.WithStrictVerify())...) })
+			return Guard(func() error {
+				return gtree.VerifyFromRoot(g, mo(ctx, gtree.WithTargetDir(t), gtree.WithStrictVerify())...)
+			})
 		}})
 	}
 	es = append(es, ent{"WalkIterFromRoot", false, func(ctx context.Context, _ string) Outcome {
